@@ -493,7 +493,7 @@ Proof.
   assert (H1 : Forall P (if Z.eqb ivar 0 then map (fun _ => v) ranges else ranges)).
   { destruct (Z.eqb ivar 0); [|exact H]. apply Forall_forall. intros x Hx. apply in_map_iff in Hx.
     destruct Hx as (_ & <- & _). exact Hv. }
-  destruct (Z.ltb _ _); [apply set_nthq_forall; assumption | exact H1].
+  destruct (_ && Z.ltb _ _); [apply set_nthq_forall; assumption | exact H1].
 Qed.
 
 (* every range written by the fit is one of the RANGE parameters: if those are > 0, so are the ranges *)
@@ -518,7 +518,7 @@ Proof.
   unfold range_write. cbn [Z.eqb].
   assert (H : Forall (fun x => x = v) (map (fun _ => v) ranges)).
   { apply Forall_forall. intros x Hx. apply in_map_iff in Hx. destruct Hx as (_ & <- & _). reflexivity. }
-  destruct (Z.ltb _ _); [apply set_nthq_forall; auto | exact H].
+  destruct (_ && Z.ltb _ _); [apply set_nthq_forall; auto | exact H].
 Qed.
 
 (* ------------------------------------------------------------------ angles imposed by equality constraints *)
@@ -542,4 +542,64 @@ Proof.
   intros [H|H]; unfold imposed_angle.
   - rewrite H. reflexivity.
   - destruct (angle_is_param ps icov idim); [reflexivity|]. rewrite !constraints_get_none by exact H. reflexivity.
+Qed.
+
+(* ------------------------------------------------------------------ lock_samerot: a single structure carries the rotation *)
+Local Open Scope Z_scope.
+Lemma anirot_parids_icov o ndim jcov p : In p (anirot_parids o ndim jcov) -> p_icov p = jcov.
+Proof.
+  unfold anirot_parids. destruct (_ || _).
+  - intros [<-|[]]. reflexivity.
+  - intro H. apply in_map_iff in H. destruct H as (i & <- & _). reflexivity.
+Qed.
+
+Lemma parids_cov_angles o ndim nvar jcov ch first p :
+  In p (fst (parids_cov o ndim nvar jcov ch first)) -> is_angle p = true ->
+  p_icov p = jcov /\ snd (parids_cov o ndim nvar jcov ch first) = jcov /\ take_rot o first = true.
+Proof.
+  unfold parids_cov. cbn [fst snd]. intros Hin Ha. unfold is_angle in Ha. apply Z.eqb_eq in Ha.
+  repeat (apply in_app_or in Hin; destruct Hin as [Hin|Hin]).
+  - destruct (negb (o_goulard o)); [|destruct Hin]. rewrite (sill_parids_elem _ _ _ Hin) in Ha. discriminate.
+  - destruct (c_flag_param ch); [|destruct Hin]. destruct Hin as [<-|[]]. discriminate.
+  - destruct (0 <? c_flag_range ch); [|destruct Hin]. destruct Hin as [<-|[]]. discriminate.
+  - destruct (negb (c_flag_range ch =? 0) && o_aniso o); [|destruct Hin].
+    destruct (anicoef_parids_elem _ _ _ _ Hin) as [E _]. rewrite E in Ha. discriminate.
+  - destruct (negb (c_flag_range ch =? 0) && o_aniso o && o_rot o && take_rot o first) eqn:E; [|destruct Hin].
+    split; [apply (anirot_parids_icov _ _ _ _ Hin)|]. split; [reflexivity|].
+    apply andb_true_iff in E. apply E.
+Qed.
+
+Lemma parid_alloc_samerot_none o ndim nvar chars : forall jcov first,
+  o_samerot o = true -> 0 <= first ->
+  forall p, In p (parid_alloc_from o ndim nvar jcov first chars) -> is_angle p = false.
+Proof.
+  induction chars as [|ch r IH]; intros jcov first Hs Hf p Hin; cbn [parid_alloc_from] in Hin; [destruct Hin|].
+  destruct (parids_cov o ndim nvar jcov ch first) as [l f1] eqn:E.
+  assert (T : take_rot o first = false).
+  { unfold take_rot. rewrite Hs. cbn. destruct (Z.ltb_spec first 0); [lia | reflexivity]. }
+  apply in_app_or in Hin. destruct Hin as [Hin|Hin].
+  - destruct (is_angle p) eqn:A; [|reflexivity]. exfalso.
+    change l with (fst (l, f1)) in Hin. rewrite <- E in Hin.
+    destruct (parids_cov_angles _ _ _ _ _ _ _ Hin A) as (_ & _ & T'). congruence.
+  - apply (IH (jcov + 1) f1 Hs); [|exact Hin].
+    assert (F : f1 = first).
+    { change f1 with (snd (l, f1)). rewrite <- E. unfold parids_cov. cbn [snd]. rewrite T. rewrite !andb_false_r. reflexivity. }
+    lia.
+Qed.
+
+Lemma parid_alloc_samerot o ndim nvar chars : forall jcov first,
+  o_samerot o = true -> 0 <= jcov ->
+  forall p q, In p (parid_alloc_from o ndim nvar jcov first chars) -> In q (parid_alloc_from o ndim nvar jcov first chars) ->
+              is_angle p = true -> is_angle q = true -> p_icov p = p_icov q.
+Proof.
+  induction chars as [|ch r IH]; intros jcov first Hs Hj p q Hp Hq Ap Aq; cbn [parid_alloc_from] in Hp, Hq; [destruct Hp|].
+  destruct (parids_cov o ndim nvar jcov ch first) as [l f1] eqn:E.
+  assert (Hl : forall x, In x l -> is_angle x = true -> p_icov x = jcov /\ f1 = jcov).
+  { intros x Hx Ax. change l with (fst (l, f1)) in Hx. rewrite <- E in Hx.
+    destruct (parids_cov_angles _ _ _ _ _ _ _ Hx Ax) as (H1 & H2 & _). rewrite E in H2. cbn in H2. auto. }
+  apply in_app_or in Hp. apply in_app_or in Hq. destruct Hp as [Hp|Hp], Hq as [Hq|Hq].
+  - destruct (Hl p Hp Ap) as [-> _]. destruct (Hl q Hq Aq) as [-> _]. reflexivity.
+  - exfalso. destruct (Hl p Hp Ap) as [_ F]. pose proof (parid_alloc_samerot_none o ndim nvar r (jcov + 1) f1 Hs ltac:(lia) q Hq). congruence.
+  - exfalso. destruct (Hl q Hq Aq) as [_ F]. pose proof (parid_alloc_samerot_none o ndim nvar r (jcov + 1) f1 Hs ltac:(lia) p Hp). congruence.
+  - apply (IH (jcov + 1) f1 Hs ltac:(lia) p q Hp Hq Ap Aq).
 Qed.
